@@ -313,19 +313,82 @@ def check_liveness(idx: Index, rep: Report) -> None:
         conds.append(sorted((unparse(t), p) for t, p in guard_facts(f.node, c) if "is_live(op)" not in unparse(t) or "use" in unparse(t)))
     want1 = [(f"would_be_trivially_dead({op})", False)]
     want2_pat = rf"any\(\(self\.is_live\(use\.operation\) for result in {op}\.results for use in result\.uses\)\)"
+
+    def user_live(t_: str) -> bool:
+        """`t_` states that some user of a result of op is live: the any(...) form, or a private predicate method whose
+        body returns True exactly under self.is_live(<use>.operation) inside loops over op.results / result.uses."""
+        if re.fullmatch(want2_pat, t_):
+            return True
+        m_ = re.fullmatch(rf"self\.(_\w+)\({op}\)", t_)
+        if not m_ or f.cls is None:
+            return False
+        h = f.cls.method(m_.group(1))
+        if h is None:
+            return False
+        hn = h.raw_node
+        hop = hn.args.args[1].arg
+        rets = [x for x in walk_local(hn) if isinstance(x, ast.Return)]
+        trues = [x for x in rets if isinstance(x.value, ast.Constant) and x.value.value is True]
+        falses = [x for x in rets if isinstance(x.value, ast.Constant) and x.value.value is False]
+        if len(trues) != 1 or len(falses) != 1 or len(rets) != 2 or hn.body[-1] is not falses[0]:
+            return False
+        from ..astutil import parent_map
+
+        pm_ = parent_map(hn)
+        iters = []
+        n_ = trues[0]
+        while id(n_) in pm_:
+            n_ = pm_[id(n_)]
+            if isinstance(n_, ast.For):
+                iters.append((unparse(n_.target), unparse(n_.iter)))
+        gf = [(unparse(a_), p_) for a_, p_ in guard_facts(hn, trues[0])]
+        if len(iters) != 2 or len(gf) != 1 or not gf[0][1]:
+            return False
+        (u_, uit), (r_, rit) = iters
+        return rit == f"{hop}.results" and uit == f"{r_}.uses" and gf[0][0] == f"self.is_live({u_}.operation)"
+
     has1 = any(c == want1 for c in conds)
-    has2 = any(any(re.fullmatch(want2_pat, t) and p for t, p in c) and (f"would_be_trivially_dead({op})", True) in c for c in conds)
-    if has1 and has2 and len(sets) == 2:
+    has2 = any(any(user_live(t) and p for t, p in c) and (f"would_be_trivially_dead({op})", True) in c for c in conds)
+    # one call under a disjunction of the two conditions
+    disj = False
+    if len(sets) == 1 and len(conds[0]) == 1 and conds[0][0][1]:
+        try:
+            e_ = ast.parse(conds[0][0][0], mode="eval").body
+        except SyntaxError:
+            e_ = None
+        if isinstance(e_, ast.BoolOp) and isinstance(e_.op, ast.Or) and len(e_.values) == 2:
+            ts = [unparse(v_) for v_ in e_.values]
+            disj = f"not would_be_trivially_dead({op})" in ts and any(user_live(t_) for t_ in ts)
+    if (has1 and has2 and len(sets) == 2) or disj:
         r.ok(f.fq + ":rule", f"{f.loc} live iff not would_be_trivially_dead(op) or a user is live")
     else:
         r.fail(f.fq + ":rule", Finding("C13.R3", f.fq, "liveness-rule", f"set_live conditions are {conds}; expected `not would_be_trivially_dead(op)` and `any user live`", f.loc))
     f = idx.func(DCE, "LiveSet.set_live")
-    body = [unparse(s) for s in f.node.body]
     op = f.node.args.args[1].arg
-    if body == [f"if not self.is_live({op}):\n    self.changed = True\n    self._live_ops.add({op})"]:
+    from ..paths import enum_paths
+
+    bad_sl = []
+    cases = set()
+    for pth in enum_paths(f.node):
+        nf = {(t_.replace(f"self.is_live({op})", f"{op} in self._live_ops"), p_) for t_, p_ in pth.nfacts()}
+        live = next((p_ for t_, p_ in nf if t_ == f"{op} in self._live_ops"), None)
+        effs = [unparse(e_) for e_ in pth.effects if isinstance(e_, ast.AST)]
+        marks = "self.changed = True" in effs
+        adds = f"self._live_ops.add({op})" in effs
+        if live is None:
+            bad_sl.append("a path does not test whether the op is already live")
+        elif live:
+            cases.add("already")
+            if marks:
+                bad_sl.append("`changed` is raised for an op that was already live (the fixpoint loop never stops)")
+        else:
+            cases.add("new")
+            if not marks or not adds:
+                bad_sl.append("a newly live op is not both added and signalled through `changed` (the fixpoint loop stops early)")
+    if not bad_sl and cases == {"already", "new"}:
         r.ok(f.fq, f"{f.loc} changed raised iff newly live")
     else:
-        r.fail(f.fq, Finding("C13.R3", f.fq, "set-live", "set_live must add the op and raise `changed` exactly when it was not live yet (otherwise the fixpoint loop stops early or never)", f.loc))
+        r.fail(f.fq, Finding("C13.R3", f.fq, "set-live", "set_live must add the op and raise `changed` exactly when it was not live yet (otherwise the fixpoint loop stops early or never): " + "; ".join(bad_sl or [f"cases {sorted(cases)}"]), f.loc))
     f = idx.func(DCE, "LiveSet.is_live")
     if [unparse(s) for s in f.node.body] == [f"return {f.node.args.args[1].arg} in self._live_ops"]:
         r.ok(f.fq)
@@ -333,7 +396,15 @@ def check_liveness(idx: Index, rep: Report) -> None:
         r.fail(f.fq, Finding("C13.R3", f.fq, "is-live", "is_live must be membership in _live_ops", f.loc))
     f = idx.func(DCE, "region_dce")
     ws = [w for w in walk_local(f.node) if isinstance(w, ast.While)]
-    ok = len(ws) == 1 and unparse(ws[0].test) == "live_set.changed" and [unparse(s) for s in ws[0].body] == ["live_set.changed = False", f"live_set.propagate_region_liveness({f.node.args.args[0].arg})"]
+    ok = False
+    if len(ws) == 1:
+        bt = [unparse(s_) for s_ in ws[0].body]
+        reg = f.node.args.args[0].arg
+        core = ["live_set.changed = False", f"live_set.propagate_region_liveness({reg})"]
+        if unparse(ws[0].test) == "live_set.changed" and bt == core:
+            ok = True
+        elif unparse(ws[0].test) == "True" and bt[:2] == core and bt[2:] in (["if not live_set.changed:\n    break"], ["if live_set.changed:\n    continue\nbreak"]):
+            ok = True
     if ok:
         r.ok(f.fq + ":fixpoint", f"{f.loc} while changed: changed=False; propagate")
     else:
@@ -352,8 +423,11 @@ def check_liveness(idx: Index, rep: Report) -> None:
         r.fail(init.fq + ":first-sweep", Finding("C13.R3", init.fq, "first-sweep", "LiveSet.changed must start True so that the first sweep happens", init.loc))
     # reachability of blocks: region sweep iterates PostOrderIterator(first); successors followed for possibly-unregistered terminators
     f = idx.func(DCE, "LiveSet.propagate_region_liveness")
-    loops = [w for w in walk_local(f.node) if isinstance(w, ast.For) and unparse(w.iter) == "PostOrderIterator(first)"]
-    firsts = [s for s in f.node.body if isinstance(s, ast.Assign) and unparse(s) == f"first = {f.node.args.args[1].arg}.first_block"]
+    rcfg = CFG(f.node)
+    from ..dataflow import resolved_text as _rtx
+
+    loops = [w for w in walk_local(f.node) if isinstance(w, ast.For) and _rtx(rcfg, w.iter, rcfg.node_of(w)) == f"PostOrderIterator({f.node.args.args[1].arg}.first_block)"]
+    firsts = loops
     if loops and firsts:
         r.ok(f.fq, f"{f.loc} sweeps blocks reachable from the entry block")
     else:
@@ -406,11 +480,21 @@ def check_recursive_effects(idx: Index, rep: Report) -> None:
     r = rep.rule("C13.R5", "RecursiveMemoryEffect.get_effects collects get_effects of every nested operation (no filter / early continue) and propagates an unknown (None) effect", floor=1)
     f = idx.func("xdsl/traits.py", "RecursiveMemoryEffect.get_effects")
     cfg = CFG(f.node)
-    inner = [w for w in walk_local(f.node) if isinstance(w, ast.For) and re.search(r"\.ops\b|\.walk\(", unparse(w.iter))]
+    inner = [w for w in walk_local(f.node) if isinstance(w, ast.For) and any(call_name(c) == "get_effects" and c.args and unparse(c.args[0]) == unparse(w.target) for c in calls_in(w))]
     if not inner:
         raise AnalysisError(f"{f.fq}: loop over the nested operations not found")
+    from ..dataflow import reaching_defs
+
     for w in inner:
         var = unparse(w.target)
+        it = w.iter
+        if isinstance(it, ast.Name):
+            ds = [v for _, v in reaching_defs(cfg, it.id, cfg.node_of(w)) if v is not None]
+            if len(ds) == 1:
+                it = ds[0]
+        filt = [unparse(c_) for g_ in getattr(it, "generators", []) for c_ in g_.ifs]
+        if filt:
+            r.fail(f"{f.fq}:filter", Finding("C13.R5", f.fq, "nested-op-skipped", f"the nested operations are filtered by {filt} before their effects are collected: the effects of the excluded operations are invisible", f"{f.module.relpath}:{w.lineno}"))
         calls = {cfg.node_of(c) for c in calls_in(w) if call_name(c) == "get_effects" and c.args and unparse(c.args[0]) == var}
         head = cfg.node_of(w)
         inst = f"{f.fq}:{unparse(w.iter)[:30]}"
